@@ -414,12 +414,14 @@ def op_simple(rng, inp, which=None):
 # C05 / C01: element assignment
 
 
-def op_setitem(rng, inp, malformed=False, via_series=False):
+def op_setitem(rng, inp, malformed=False, via_series=False, force_multi=False):
     arr, n = inp["arr"], len(inp["rows"])
     schema = inp["schema"]
     kind = rng.choice(["int", "slice", "mask", "idx", "idx"])
     if via_series and kind == "slice":
         kind = "idx"   # pandas' own length check for slice keys (length_of_indexer) is not ours to verify
+    if force_multi and n >= 2:
+        kind = rng.choice(["idx", "mask"])      # several DIFFERENT rows written to several targets (they may lie in different chunks)
     # key
     if kind == "int":
         z = gen_int(rng, n) if (malformed or n == 0) else rng.randint(-n, n - 1)
@@ -435,14 +437,14 @@ def op_setitem(rng, inp, malformed=False, via_series=False):
         skey = f"(ASlice {cq_optZ(a)} {cq_optZ(b)} {cq_optZ(s)})"
         targets = list(range(n)[key])
     elif kind == "mask":
-        m = [rng.random() < 0.4 for _ in range(n)]
+        m = [rng.random() < (0.7 if force_multi else 0.4) for _ in range(n)]
         if malformed and rng.random() < 0.3:
             m = m + [True]
         key = np.array(m, dtype=bool)
         mkey, skey = f"(KMask {cq_bools(m)})", f"(AMask {cq_bools(m)})"
         targets = [i for i, x in enumerate(m) if x] if len(m) == n else None
     else:
-        k = rng.randint(0, min(n, 4))
+        k = rng.randint(2 if (force_multi and n >= 2) else 0, min(n, 4))
         pos = rng.sample(range(n), k)
         ix = [p - n if rng.random() < 0.4 else p for p in pos]   # distinct targets, mixed signs
         if malformed and ix and rng.random() < 0.5:
@@ -458,12 +460,14 @@ def op_setitem(rng, inp, malformed=False, via_series=False):
     seq_as_scalar = False
     vkind = rng.choice(["row", "row", "rows", "rows", "nea"])
     ragged = malformed and rng.random() < 0.6
+    if force_multi:
+        vkind = rng.choice(["rows", "nea"])
     if via_series:
         # pandas interprets dict / DataFrame / list values itself before the array sees them: only
         # NA and a nested array of rows are handed through unchanged
         vkind = rng.choice(["row", "nea", "nea"])
         ragged = False
-    if vkind == "row" or (cnt == 0 and rng.random() < 0.5 and not via_series):
+    if vkind == "row" or (cnt == 0 and rng.random() < 0.5 and not via_series and not force_multi):
         t = None if (rng.random() < 0.25 or via_series) else gen_table(rng, schema, ragged=ragged)
         value = table_to_value(rng, schema, t)
         mval = f"(SRow {cq_lrow(table_to_lrow(schema, t))})"
